@@ -52,7 +52,14 @@ def r6_operands(run, tree):
     af.check_wrap_numpy_fold(run, tree, want=("operands",))
 
 
-RULES = [r1_table, r2_strict_conversion, r3_bool_dimensionless, r4_end_to_end, r5_registry, r6_operands]
+def r_conversion_history(run, tree):
+    run.rule("C07.R7", "a conversion is computed from the operand as it is NOW: converting, changing the buffer in place, converting again gives the new values (no memo of an earlier conversion; shared with C02.R7/C08.R6)",
+             "D7 history fold of Array.to with symbolic buffers", "", floor=1)
+    from . import quantity_stack as qs
+    qs.check_to_stack(run, tree, only=("history",))
+
+
+RULES = [r1_table, r2_strict_conversion, r3_bool_dimensionless, r4_end_to_end, r5_registry, r6_operands, r_conversion_history]
 
 
 def t_pair_space(run, tree):
